@@ -28,7 +28,7 @@ var BoundarySizes = []int{
 var Families = []string{
 	"uniform", "alpha2", "alpha4", "alpha16", "nearuniform", "fib", "geom", "text",
 	"equal", "period", "runs", "farcopy", "flip", "sparsematch", "mixed", "zeros-then-random",
-	"utf16", "dominant", "fibexact",
+	"utf16", "dominant", "fibexact", "farcopy2", "farcopy3",
 }
 
 // Make builds n bytes of the named family.
@@ -137,6 +137,48 @@ func Make(r *Rand, family string, n int) Data {
 				}
 			}
 			i += r.Range(1, 200)
+		}
+	case "farcopy2":
+		// random bytes with many short copies from far back (>= 16385): tokens
+		// of 25-32 bits (long distance extra bits), densely
+		r.Fill(b)
+		for i := 16500; i+12 < n; {
+			d := r.Range(16385, 32768)
+			if d > i {
+				d = i
+			}
+			l := r.Range(3, 10)
+			copy(b[i:i+l], b[i-d:i-d+l])
+			i += l + r.Range(0, 6)
+		}
+	case "farcopy3":
+		// mostly random literals; one token in five is a copy with a random
+		// distance class (up to 32768) and a long length: rare match symbols get
+		// long codes and carry many extra bits, so tokens cost up to ~30 bits
+		r.Fill(b)
+		for i := 33000; i < n; {
+			if r.Intn(5) != 0 {
+				i++
+				continue
+			}
+			var d int
+			if r.Intn(5) == 0 {
+				d = r.Range(16385, 32768)
+			} else {
+				e := uint(r.Range(3, 13))
+				d = 1<<e + 1 + r.Intn(1<<e)
+			}
+			if d > i {
+				d = i
+			}
+			l := r.Range(4, 258)
+			if r.Bool() {
+				l = r.Range(131, 257)
+			}
+			for j := 0; j < l && i < n; j++ {
+				b[i] = b[i-d]
+				i++
+			}
 		}
 	case "flip":
 		// statistics flip every 20000 bytes
@@ -247,6 +289,23 @@ func Periodic(r *Rand, n, p int) Data {
 	b := make([]byte, n)
 	fillPeriod(r, b, p)
 	return Data{Desc: fmt.Sprintf("period%d/%d", p, n), B: b}
+}
+
+// PeriodicAlpha repeats a random pattern of length p over an alphabet of k symbols.
+func PeriodicAlpha(r *Rand, n, p, k int) Data {
+	if p <= 0 {
+		p = 1
+	}
+	syms := r.Bytes(k)
+	pat := make([]byte, p)
+	for i := range pat {
+		pat[i] = syms[r.Intn(k)]
+	}
+	b := make([]byte, n)
+	for i := range b {
+		b[i] = pat[i%p]
+	}
+	return Data{Desc: fmt.Sprintf("period%d-alpha%d/%d", p, k, n), B: b}
 }
 
 // RandomSize draws a size: mostly small, sometimes around a roll-over,
@@ -483,3 +542,128 @@ func ReadSizes(r *Rand, style string) func() int {
 }
 
 var ReadStyles = []string{"1", "2", "7", "512", "4096", "64k", "random"}
+
+// DistinctGramUnit builds a cyclic unit of length p over k symbols in which all
+// p cyclic g-grams are distinct (randomised depth-first search in the de Bruijn
+// graph); ok=false if none was found within the step budget.
+func DistinctGramUnit(r *Rand, p, k, g int) (unit []byte, ok bool) {
+	if p < 1 || k < 1 {
+		return nil, false
+	}
+	pow := 1
+	for i := 0; i < g; i++ {
+		pow *= k
+	}
+	if p > pow {
+		return nil, false
+	}
+	seq := make([]int, p)
+	used := make(map[int]bool)
+	gram := func(end int) (int, bool) { // g-gram ending at index end (needs end >= g-1)
+		v := 0
+		for i := end - g + 1; i <= end; i++ {
+			v = v*k + seq[i]
+		}
+		return v, true
+	}
+	steps := 0
+	var dfs func(pos int) bool
+	dfs = func(pos int) bool {
+		steps++
+		if steps > 200000 {
+			return false
+		}
+		if pos == p {
+			// close the cycle: the g-1 wrapping grams must be new and distinct too
+			var added []int
+			good := true
+			ext := append(append([]int(nil), seq...), seq[:g-1]...)
+			for e := p; e < p+g-1 && good; e++ {
+				v := 0
+				for i := e - g + 1; i <= e; i++ {
+					v = v*k + ext[i]
+				}
+				if used[v] {
+					good = false
+				} else {
+					used[v] = true
+					added = append(added, v)
+				}
+			}
+			if !good {
+				for _, v := range added {
+					delete(used, v)
+				}
+			}
+			return good
+		}
+		for _, c := range r.Perm(k) {
+			seq[pos] = c
+			if pos >= g-1 {
+				v, _ := gram(pos)
+				if used[v] {
+					continue
+				}
+				used[v] = true
+				if dfs(pos + 1) {
+					return true
+				}
+				delete(used, v)
+			} else if dfs(pos + 1) {
+				return true
+			}
+		}
+		return false
+	}
+	if p < g {
+		// short units: grams wrap several times; accept any unit whose cyclic grams are distinct
+		for try := 0; try < 200; try++ {
+			for i := range seq {
+				seq[i] = r.Intn(k)
+			}
+			if cyclicGramsDistinct(seq, g) {
+				return toBytes(r, seq, k), true
+			}
+		}
+		return nil, false
+	}
+	if !dfs(0) {
+		return nil, false
+	}
+	return toBytes(r, seq, k), true
+}
+
+func toBytes(r *Rand, seq []int, k int) []byte {
+	syms := r.Perm(256)[:k]
+	out := make([]byte, len(seq))
+	for i, v := range seq {
+		out[i] = byte(syms[v])
+	}
+	return out
+}
+
+func cyclicGramsDistinct(seq []int, g int) bool {
+	seen := map[string]bool{}
+	n := len(seq)
+	for i := 0; i < n; i++ {
+		key := make([]byte, g)
+		for j := 0; j < g; j++ {
+			key[j] = byte(seq[(i+j)%n])
+		}
+		if seen[string(key)] {
+			return false
+		}
+		seen[string(key)] = true
+	}
+	return true
+}
+
+// HasRepeatedGram reports whether some cyclic g-gram of the unit occurs at two
+// positions of the unit.
+func HasRepeatedGram(unit []byte, g int) bool {
+	seq := make([]int, len(unit))
+	for i, b := range unit {
+		seq[i] = int(b)
+	}
+	return !cyclicGramsDistinct(seq, g)
+}
